@@ -188,7 +188,10 @@ let parse_event (line : string) : ev =
            | ONew -> parse_md (get a "ctxtmd"), None, has a "tcopt"
            | _ -> parse_md (get a "md"), None, false) in
        let tc = if has a "ctxtc" then getz a "ctxtc" else z_of_int' (-1) in
-       let idx = (match op with ONew -> if has a "tcopt" then n_of_int (geti a "tcopt" + 2) else N0 | _ -> getn a "idx") in
+       let idx = (match op with
+           | ONew -> if has a "tcopt" then n_of_int (geti a "tcopt" + 2) else N0
+           | OOther -> (match get a "op" with "stop" -> n_of_int 1 | "gracefulstop" -> n_of_int 2 | "chclose" -> n_of_int 3 | _ -> N0)
+           | _ -> getn a "idx") in
        Ret (parse_who (get a "who"), op, parse_res (get a "res"), idx, getn a "len", hexn a "dg", md, md2, has2, tc)
      | "hstart" -> HStart (getn a "r", parse_shape (get a "shape"), parse_md (get a "md"),
                            (if get a "deadline" = "none" then None else Some (getz a "deadline")),
@@ -256,7 +259,7 @@ let run_traces (path : string) =
            let c = !cfg in
            let fails =
              mon_wire c tr @ mon_C01 c tr @ mon_C02 c tr @ mon_C03 c tr @ mon_C04 c tr @ mon_C07 c tr @ mon_C08 tr @
-             mon_C10 c tr @ mon_C14 c tr @ mon_C16 c tr @ mon_C17 c tr @ mon_C18 tr @ mon_panic tr @ mon_tables c tr @ mon_ctable c tr @ mon_negotiate c tr in
+             mon_C10 c tr @ mon_C14 c tr @ mon_C16 c tr @ mon_C17 c tr @ mon_C18 tr @ mon_panic tr @ mon_tables c tr @ mon_ctable c tr @ mon_negotiate c tr @ mon_overrun c tr in
            let status = (match split ' ' rest with _ :: st :: _ -> st | _ -> "?") in
            Printf.printf "T %s %s %d %s\n" !name status !nev (String.concat " " (List.map string_of_fail fails))
          | _ -> ()
